@@ -21,11 +21,12 @@ Init == \E j \in 1..Len(Jobs.jobs) :
             /\ MInit(Jobs.jobs[j].start)
 
 Next == /\ MNext /\ UNCHANGED <<job, ti>>
-        /\ (done' /\ ~done) => PrintT("RES " \o ToString(job) \o "." \o ToString(ti) \o " " \o ToJson([r |-> MOutcome, u |-> Unspecified, ua |-> UnspecifiedAcceptance, lr |-> LeftRecursive # {}]))
+        /\ (done' /\ ~done) => PrintT("RES " \o ToString(job) \o "." \o ToString(ti) \o " " \o ToJson([r |-> MOutcome, u |-> Unspecified, ua |-> UnspecifiedAcceptance, lr |-> LeftRecursive # {}, sl |-> StaticLeaderDeviates(Jobs.jobs[job].start)]))
 
 Sem == Parse(Jobs.jobs[job].start)
 Refines == done => LET s == Sem  m == MOutcome IN
                    \/ s.k = "fuel" \/ UnspecifiedAcceptance
+                   \/ StaticLeaderDeviates(Jobs.jobs[job].start)      \* KF-C03-1: decided (and reported) by C03, not here
                    \/ /\ (s.k = "ok") = (m.k = "ok")
                       /\ (s.k = "ok" => s.pos = m.pos)
                       /\ (s.k = "ok" /\ ~Unspecified => VEq(s.v, m.v))
